@@ -8,11 +8,15 @@
 //    threads, is race-free and yields the same model whatever the number of hardware threads, up to floating-point
 //    re-association (same selected features, predictions within 1e-5 relative)."
 //
-// Five sub-checks.  "solver", "loss", "dataset", "predict": the shared object is built on the main thread, every
+// Six sub-checks.  "solver", "loss", "dataset", "predict": the shared object is built on the main thread, every
 // call of every thread is first executed ALONE (sequentially, before the threads exist) and recorded; then the
-// threads are released together by a spin barrier and repeat their calls on the shared object; every result must be
-// bit-identical to the recorded one.  "fit": the same fit is run under several (dataset pool, NANO_VERIF_MAX_THREADS)
-// configurations with generated delays at the pool's schedule points and the fitted models are compared.
+// threads are released together by a spin barrier (and meet again before every repetition) and repeat their calls on
+// the shared object; every result must be bit-identical to the recorded one.  "fit": the same fit is run under several
+// (dataset pool, NANO_VERIF_MAX_THREADS) configurations with generated delays at the pool's schedule points and the
+// fitted models are compared where the property's tolerance is meaningful (smooth objective, no partition-scoring weak
+// learner; the other fits run for the race check).  "wfit": one weak learner fitted with given gradients under dataset
+// pools 1/2/16 must be bit-identical (this is where a schedule-dependent feature selection shows without any
+// floating-point re-association in the way).
 // The same source is built in the plain and in the tsan flavour: under ThreadSanitizer a data race aborts the case
 // (the driver turns that into race/<kind>/<first libnano frame>).
 //
